@@ -68,7 +68,7 @@ class RawDecoder:
             self.buf = self.buf[4 + n:]
             self.frames += 1
             try:
-                obj = json.loads(payload.decode("utf-8"))
+                obj = json.loads(payload.decode("utf-8", "surrogateescape"))
             except (ValueError, UnicodeDecodeError):
                 obj = None
                 self.errors.append("payload is not JSON: %r" % payload[:80])
@@ -170,7 +170,7 @@ class WsDecoder:
                 obj = None
                 if rsv == 0:
                     try:
-                        obj = json.loads(payload.decode("utf-8"))
+                        obj = json.loads(payload.decode("utf-8", "surrogateescape"))
                     except (ValueError, UnicodeDecodeError):
                         self.errors.append("text payload is not JSON: %r" % payload[:80])
                 out.append(("msg" if rsv == 0 else "cmsg", payload, obj, wire))
